@@ -551,6 +551,16 @@ func driveBlind(s *shardSet, rng *rand.Rand, thorough bool) {
 				w.Slice(0, 0, k)
 				w.SetSample(len(w.Views)-1, ch*k-1, w.NextStamp())
 			}
+			// two views of the same window taken back to back are two headers: appending through one leaves the other
+			w.Slice(1, 0, 1)
+			w.Slice(1, 0, 1)
+			w.AppendSample(len(w.Views)-1, w.NextStamp())
+			// a zero-capacity buffer that grows by a buffer append is one buffer: the next one is empty again
+			w.Alloc(ty, ch, 0, 0)
+			z := len(w.Views) - 1
+			w.Append(z, 2)
+			w.Alloc(ty, ch, 0, 0)
+			w.AppendSample(len(w.Views)-1, w.NextStamp())
 			w.Alloc(ty, ch, 2, 2)   // allocated after the store: must be zero
 			w.Alloc(ty, 1, 3, 64)   // and one whose total capacity is exactly 64 samples
 			w.Append(1, 2)          // the neighbour's first operation
@@ -669,5 +679,40 @@ func driveConvertReusedDst(s *shardSet, rng *rand.Rand, thorough bool) {
 				}
 			}
 		}
+	}
+}
+
+// driveHugeSlice: tail windows of buffers of 1 MiB and more (a window that "pins" a large parent might be given a
+// copy). Nothing is projected (the views are too large to log after every call): the history is blind and judged by
+// the samples read back through the other side.
+func driveHugeSlice(s *shardSet, rng *rand.Rand, thorough bool) {
+	for _, sh := range []struct {
+		ty string
+		k  int
+	}{{"int8", 1<<20 + 16}, {"int64", 1<<17 + 16}, {"float32", 1<<18 + 5}} {
+		w := s.Next()
+		w.Reset()
+		w.NoObs, w.Blind = true, true
+		k := sh.k
+		w.Alloc(sh.ty, 1, k, k)
+		w.Slice(0, k-50, k) // 1: the last 50 frames
+		w.SetSample(1, 7, w.NextStamp())
+		w.Sample(0, k-50+7)
+		w.SetSample(0, k-1, w.NextStamp())
+		w.Sample(1, 49)
+		w.Slice(1, 10, 20) // 2: a window of the window
+		w.SetSample(2, 0, w.NextStamp())
+		w.Sample(0, k-40)
+		w.Sample(1, 10)
+		w.Slice(0, k-3, k) // 3: a three-frame tail taken from the root directly
+		w.SetSample(0, k-2, w.NextStamp())
+		w.Sample(3, 1)
+		w.Sample(1, 48)
+		w.Slice(0, 10, 12) // 4: a short window near the start: its spare capacity is the rest of the parent
+		w.AppendSample(4, w.NextStamp())
+		w.Sample(0, 12)
+		w.AppendSample(4, w.NextStamp())
+		w.Sample(0, 13)
+		w.NoObs, w.Blind = false, false
 	}
 }
